@@ -363,3 +363,25 @@ PROPS["C01"] = {
         {"test": "^TestChainTransparency$", "checks": 300, "steps": 40, "shards": 4, "race": True, "timeout": 1800},
     ],
 }
+
+PROPS["C10"] = {
+    "pkg": "c10",
+    "technique": "generated (seeded) concurrent programs executed under the Go race detector, with deadlock watchdog and conservation checks; crash journal turns a detected race into a replayable program",
+    "level_text": "Each case is a seeded concurrent program for one interceptor or an all-interceptor chain: writer goroutines (distinct or shared streams), RTP readers, several RTCP read loops, an observer "
+                  "calling the public getters and a lifecycle goroutine binding/unbinding other streams and optionally closing mid-traffic, with seeded yield/sleep perturbation, at GOMAXPROCS 2, 4 and 16 "
+                  "under -race. Oracle: race detector silent, every goroutine finishes within the watchdog, counters lose no updates. Exploration of executed interleavings only.",
+    "level_note": "trusts: the Go race detector (it only sees executed interleavings; the harness perturbs but does not own the scheduler); only concurrency the interface permits is generated "
+                  "(single Close, callbacks installed before traffic); a replay reproduces a schedule-dependent failure only with some probability (each replay runs the program 20 times)",
+    "assumptions": ["no concurrent double Close", "RTCP writer bound before streams"],
+    "quick": [
+        {"test": "^TestRegress", "race": True, "timeout": 400},
+        {"test": "^TestConcurrentPrograms$", "checks": 100, "shards": 6, "race": True, "timeout": 600},
+        {"test": "^TestConcurrentPrograms$", "checks": 60, "shards": 2, "race": True, "gomaxprocs": 2, "timeout": 600},
+    ],
+    "thorough": [
+        {"test": "^TestRegress", "race": True, "timeout": 400},
+        {"test": "^TestConcurrentPrograms$", "checks": 2500, "shards": 8, "race": True, "timeout": 1800},
+        {"test": "^TestConcurrentPrograms$", "checks": 1200, "shards": 4, "race": True, "gomaxprocs": 2, "timeout": 1800},
+        {"test": "^TestConcurrentPrograms$", "checks": 1200, "shards": 4, "race": True, "gomaxprocs": 4, "timeout": 1800},
+    ],
+}
